@@ -61,9 +61,11 @@ pub const FLOATS: [f64; 30] = [
     9007199254740993.0, 1e19, -1e19, 9.3e18, 1e300, -1e300, 5e-324, f64::MIN_POSITIVE, f64::INFINITY, f64::NEG_INFINITY, f64::NAN,
     0.1, 1e-7,
 ];
-pub const STRINGS: [&str; 22] = [
+pub const STRINGS: [&str; 29] = [
     "", "a", "ab", "abcabc", " a b ", "\t x\n", "\u{b}ab\u{b}", "\u{a0}nb\u{a0}", "\u{2003}em\u{3000}", "żółć", "ŻÓŁĆ", "ß", "İ",
     "😀x", "a,b,,c", ",", "12", "-12", "+7", " 3", "1.5e3", "nan",
+    // scalars whose UTF-8 encoding has boundary lead / continuation bytes, and the replacement character as content
+    "\u{fffd}", "a\u{fffd}b", "\u{80}\u{bf}", "\u{7ff}\u{800}", "\u{ffff}\u{10000}\u{10ffff}", "\u{43f}\u{ff}", "\u{d7ff}\u{e000}",
 ];
 
 fn args_for(t: &Ty) -> Vec<Variable> {
@@ -76,10 +78,20 @@ fn args_for(t: &Ty) -> Vec<Variable> {
         Ty::Any => eval_all(&["1", "\"s\"", "1.0", "2.5", "true", "()", "[1, \"a\", 2.0]", "(1, \"b\", [2.5])", "[]", "[[1.0]]", "mut 1", "struct{}"]),
         Ty::Union(ms) => ms.iter().flat_map(args_for).collect(),
         Ty::Arr(e) => match &**e {
-            Ty::Int => eval_all(&[
-                "[]", "[97]", "[104, 105]", "[195, 179]", "[255]", "[195]", "[240, 159, 152, 128]", "[237, 160, 128]", "[-1]",
-                "[256]", "[353]", "[9223372036854775807]", "[0]", "[65, 0, 66]", "[192, 128]", "[226, 130]",
-            ]),
+            Ty::Int => {
+                let mut out = eval_all(&[
+                    "[]", "[97]", "[104, 105]", "[195, 179]", "[255]", "[195]", "[240, 159, 152, 128]", "[237, 160, 128]", "[-1]",
+                    "[256]", "[353]", "[9223372036854775807]", "[0]", "[65, 0, 66]", "[192, 128]", "[226, 130]",
+                    // overlong forms, beyond U+10FFFF, lone continuation bytes, the last surrogate
+                    "[224, 128, 128]", "[240, 128, 128, 128]", "[244, 144, 128, 128]", "[245, 128, 128, 128]", "[128]", "[191]", "[237, 191, 191]",
+                    "[97, 128]", "[239, 191]", "[239, 191, 189, 128]",
+                ]);
+                // the encodings of every boundary string (valid input, incl. the replacement character itself)
+                for s in STRINGS {
+                    out.push(Variable::from(s.as_bytes().iter().map(|b| Variable::Int(*b as i64)).collect::<Vec<_>>()));
+                }
+                out
+            }
             _ => eval_all(&["[]", "[1]", "[1, \"a\", 2.5]", "[\"x\", \"y\"]", "[[1], []]", "[(), true]"]),
         },
         Ty::Fun(ps, r) if ps.is_empty() => {
@@ -596,6 +608,18 @@ fn random_arg(tape: &mut crate::tape::Tape, t: &Ty) -> Option<Json> {
         Ty::Union(ms) => {
             let m = ms[tape.below(ms.len())].clone();
             random_arg(tape, &m)?
+        }
+        Ty::Arr(e) if **e == Ty::Int && tape.chance(1, 3) => {
+            // the encoding of a string over ordinary and boundary scalars, now and then with one byte changed
+            const CS: [char; 12] = ['a', 'ż', '😀', '\u{80}', '\u{bf}', '\u{7ff}', '\u{800}', '\u{fffd}', '\u{ffff}', '\u{10000}', '\u{10ffff}', '\u{43f}'];
+            let n = tape.below(4);
+            let text: String = (0..n).map(|_| *tape.pick(&CS)).collect();
+            let mut bytes: Vec<i64> = text.as_bytes().iter().map(|b| *b as i64).collect();
+            if !bytes.is_empty() && tape.chance(1, 3) {
+                let k = tape.below(bytes.len());
+                bytes[k] = tape.range(0, 255);
+            }
+            json!(bytes)
         }
         Ty::Arr(e) if **e == Ty::Int => {
             let n = tape.below(7);
